@@ -28,7 +28,7 @@ ASSUMPTIONS = [
     "alias resolution as documented: ExecNode reference, tag (wins over an equal id), id",
     "excluded nodes lie inside the part selected by R (the property's precondition)",
 ]
-BUDGET = {"quick": {"shards": 4, "seconds": 40}, "thorough": {"shards": 16, "seconds": 420}}
+BUDGET = {"quick": {"shards": 8, "seconds": 40}, "thorough": {"shards": 16, "seconds": 420}}
 
 
 class Resolver:
